@@ -16,7 +16,7 @@ theorem protocolPreimage_injective (sid sid' pid pid' ctx ctx' : Bytes)
   exact protocolPreimage_inj sid sid' pid pid' ctx ctx' hs hp hp' h
 
 /-- `resolveMatch` hands a stream for `hash` to exactly the local directives whose constraints
-admit the link and whose (protocol, context) hash is `hash`. -/
+admitOk the link and whose (protocol, context) hash is `hash`. -/
 theorem resolve_iff (H : Bytes → Bytes) (sid : Bytes) (ds : List Dir) (l : LinkView) (hash : Bytes) (d : Dir) :
     d ∈ resolve H sid ds l hash ↔ d ∈ ds ∧ admits d l = true ∧ protocolHash H sid d.pid d.ctx = hash := by
   simp only [resolve, List.mem_filter, Bool.and_eq_true, decide_eq_true_eq]
@@ -37,7 +37,7 @@ def MatchedWith (H : Bytes → Bytes) (sid : Bytes) (dsA dsB : List Dir) (lA lB 
     dA ∈ resolve H sid dsA lA h ∧ dB ∈ resolve H sid dsB lB h
 
 /-- Matched exactly when same protocol ID, same context bytes, and each side's peer and
-transport constraints admit the link — provided BLAKE3 does not collide on the two preimages. -/
+transport constraints admitOk the link — provided BLAKE3 does not collide on the two preimages. -/
 theorem matched_iff (H : Bytes → Bytes) (sid : Bytes) (dsA dsB : List Dir) (lA lB : LinkView) (dA dB : Dir)
     (hA : dA ∈ dsA) (hB : dB ∈ dsB)
     (hpA : dA.pid.length < 2 ^ 64) (hpB : dB.pid.length < 2 ^ 64)
